@@ -62,7 +62,9 @@ CreateT(t) ==
        IN Do(e) /\ made' = [made EXCEPT ![t] = Len(F) + 1] /\ UNCHANGED att
 
 \* declarations and attributes of an element, in D's order
-PrevAbn(t) == LET s == AbnKids(D, D[t].p)  k == Pos(s, t) IN IF k = 1 THEN 0 ELSE s[k - 1]
+\* (each kind in D's order; the two kinds interleave freely: an attribute may be set BEFORE a prefix is declared on the
+\* same element - the declaration still ends up in front of the attributes, where every reader looks for it)
+PrevAbn(t) == LET s == SelectSeq(AbnKids(D, D[t].p), LAMBDA x : D[x].k = D[t].k)  k == Pos(s, t) IN IF k = 1 THEN 0 ELSE s[k - 1]
 SetAbn(t) ==
     /\ made[t] = 0 /\ t \in TAbn /\ made[D[t].p] # 0
     /\ PrevAbn(t) # 0 => made[PrevAbn(t)] # 0
